@@ -7,18 +7,14 @@ import (
 	"tkestack.io/galaxy/pkg/api/docker"
 )
 
-// VerifNewFlannelGC builds the real flannelGC with explicit directories, clients and port-clean callback instead of
-// the command line flags; nothing is started.
+// VerifNewFlannelGC builds the real flannelGC through NewFlannelGC (so every flag-derived setting is what production
+// gets) and then points it at explicit directories; nothing is started.
 func VerifNewFlannelGC(kubeCli kubernetes.Interface, dockerCli *docker.DockerInterface, allocatedIPDirs, gcDirs []string,
 	cleanPortFunc func(containerID string) error) *flannelGC {
-	return &flannelGC{
-		allocatedIPDir: allocatedIPDirs,
-		gcDirs:         gcDirs,
-		kubeCli:        kubeCli,
-		dockerCli:      dockerCli,
-		quit:           make(chan struct{}),
-		cleanPortFunc:  cleanPortFunc,
-	}
+	g := NewFlannelGC(kubeCli, dockerCli, make(chan struct{}), cleanPortFunc).(*flannelGC)
+	g.allocatedIPDir = allocatedIPDirs
+	g.gcDirs = gcDirs
+	return g
 }
 
 // VerifCleanupIPOnce runs one pass of cleanupIP.
